@@ -20,14 +20,19 @@ def _obj(x):
     return x
 
 
+def _cell(c):
+    from .ad import Dual
+    return c if isinstance(c, (Sym, Dual)) else symx.as_sym(c)
+
+
 def _elementwise(fn):
     def f(x, *rest):
         if isinstance(x, np.ndarray) and x.ndim > 0:
             out = np.empty(x.shape, dtype=object)
             for ix in np.ndindex(*x.shape):
-                out[ix] = fn(symx.as_sym(np.ndarray.__getitem__(x.view(np.ndarray), ix)), *rest)
+                out[ix] = fn(_cell(np.ndarray.__getitem__(x.view(np.ndarray), ix)), *rest)
             return SArr(out)
-        return fn(symx.as_sym(x), *rest)
+        return fn(_cell(x), *rest)
     return f
 
 
@@ -57,8 +62,18 @@ m_real = lambda x: x
 m_imag = _elementwise(lambda s: symx.val(0))
 m_conj = lambda x: x
 m_sigmoid = _elementwise(lambda s: 1 / (1 + (-s).exp()))
-m_maximum = _binary_elementwise(lambda a, b: symx.smax(a, b))
-m_minimum = _binary_elementwise(lambda a, b: symx.smin(a, b))
+def _mx(a, b):
+    from .ad import Dual, dmax
+    return dmax(a, b) if isinstance(a, Dual) or isinstance(b, Dual) else symx.smax(a, b)
+
+
+def _mn(a, b):
+    from .ad import Dual, dmin
+    return dmin(a, b) if isinstance(a, Dual) or isinstance(b, Dual) else symx.smin(a, b)
+
+
+m_maximum = _binary_elementwise(_mx)
+m_minimum = _binary_elementwise(_mn)
 
 
 def m_interp(x, xp, fp):
@@ -281,7 +296,8 @@ def load_source(src: str, fname: str, extra_globals=None):
 
     b = dict(vars(builtins))
     b['__import__'] = imp
-    b['abs'] = lambda x: m_abs(x) if isinstance(x, (np.ndarray, Sym)) else builtins.abs(x)
+    from .ad import Dual as _Dual
+    b['abs'] = lambda x: m_abs(x) if isinstance(x, (np.ndarray, Sym, _Dual)) else builtins.abs(x)
     b['round'] = lambda x, *a: m_round(x) if isinstance(x, (np.ndarray, Sym)) else builtins.round(x, *a)
     b['float'] = lambda x=0.0: x if isinstance(x, Sym) else builtins.float(x)
     ns = {'__builtins__': b}
